@@ -10,10 +10,13 @@
   MONO8LU and RGB8LU (`ValueError: Unsupported PixelType`): it has no product of those types to read back (`sidd_writer_table`).
   What the reader does with a lookup-table segment made by another producer is stated too (`sidd_reads_lut`).
 -/
-import SarpyModel.Props.C02Hdr
+import SarpyModel.Props.HdrCommon
+import SarpyModel.Bridge.HdrSidd
 import SarpyModel.Props.C13
 namespace Sarpy.Props.C10
-open Sarpy.Spec.Hdr Sarpy.Props.C02
+open Sarpy.Spec.Hdr Sarpy.Props.Hdr
+
+def u1 : RawDtype := ⟨true, .u, 1⟩
 
 /-! ### 0. congruence: which fields a SIDD reader looks at -/
 
@@ -48,8 +51,8 @@ theorem sidd_writer_accepts (s : String) (rows cols : Nat) (iid1 : String) (h : 
 
 /-- the same statement for the chain as regenerated from the source -/
 theorem gen_sidd_writer_accepts (s : String) (rows cols : Nat) (iid1 : String) (h : ImgHdr)
-    (hs : Gen.Hdr.sidd_writer_hdr s rows cols iid1 = .ok h) : s ∈ ["MONO8I", "MONO16I", "RGB24I"] := by
-  rw [Bridge.Hdr.gen_sidd_writer_hdr] at hs
+    (hs : Gen.HdrSidd.sidd_writer_hdr s rows cols iid1 = .ok h) : s ∈ ["MONO8I", "MONO16I", "RGB24I"] := by
+  rw [Bridge.HdrSidd.gen_sidd_writer_hdr] at hs
   exact sidd_writer_accepts s rows cols iid1 h hs
 
 def u2 : RawDtype := ⟨true, .u, 2⟩
